@@ -349,6 +349,28 @@ func caseFrame(stacks string) string {
 	return ""
 }
 
+// caseState classifies the header of the goroutine that runs the case: "busy" (running/runnable),
+// "blocked-for-minutes" (the runtime reports a wait of at least one minute) or "waiting".
+func caseState(stacks string) string {
+	for _, g := range strings.Split(stacks, "\n\n") {
+		if !strings.Contains(g, ").safeRun(") || !strings.Contains(g, "verif/vt.") {
+			continue
+		}
+		head := g
+		if i := strings.IndexByte(g, '\n'); i >= 0 {
+			head = g[:i]
+		}
+		switch {
+		case strings.Contains(head, "[running") || strings.Contains(head, "[runnable"):
+			return "busy"
+		case strings.Contains(head, "minutes"):
+			return "blocked-for-minutes"
+		}
+		return "waiting"
+	}
+	return ""
+}
+
 // stackShape reduces a full goroutine dump to "goroutine id: function names" for
 // every goroutine that is inside the code under test, without arguments, pcs or
 // wait durations.  Two equal shapes some time apart mean that no goroutine was
@@ -402,6 +424,7 @@ func watchdog(name string, raw []byte, seq int64, limit time.Duration) {
 	}
 	shape := stackShape(first)
 	last := first
+	spinning := caseState(first) == "busy"
 	for i := 0; i < 2; i++ {
 		time.Sleep(20 * time.Second)
 		if caseSeq.Load() != seq {
@@ -411,6 +434,15 @@ func watchdog(name string, raw []byte, seq int64, limit time.Duration) {
 		if caseFrame(last) != f1 || stackShape(last) != shape {
 			return
 		}
+		if caseState(last) != "busy" {
+			spinning = false
+		}
+	}
+	// The same functions can be on the stack because the case calls them again and again (e.g. the repo's
+	// HEAD-read back-off).  Require evidence about the case goroutine itself: either it has been blocked
+	// continuously for minutes (the runtime prints the wait duration), or it was on CPU in all three dumps.
+	if !spinning && caseState(last) != "blocked-for-minutes" {
+		return
 	}
 	if len(last) > 60000 {
 		last = last[:60000]
